@@ -62,6 +62,22 @@ impl<T: Tag<IDType = TagType> + ?Sized, const W: usize> Tag for SameId<T, W> {
     const ID: TagType = T::ID;
 }
 
+/// Truthful sized tag types of more than 4 GiB (never instantiated: only the
+/// same-size check of `cast` sees them).
+#[cfg(target_pointer_width = "64")]
+#[repr(C, align(8))]
+pub struct Huge<const EXTRA: usize> {
+    header: TagHeader,
+    blob: [u8; EXTRA],
+}
+
+#[cfg(target_pointer_width = "64")]
+impl<const EXTRA: usize> MaybeDynSized for Huge<EXTRA> {
+    type Header = TagHeader;
+    const BASE_SIZE: usize = size_of::<TagHeader>() + EXTRA;
+    fn dst_len(_: &TagHeader) {}
+}
+
 macro_rules! dst_tag {
     ($name:ident, $fixed_words:expr, $elem:ty, $id:expr) => {
         #[derive(ptr_meta::Pointee)]
@@ -433,6 +449,24 @@ pub fn eval(c: &Case, obs: &mut Obs) -> Result<(), String> {
                     return Err(format!("{name} via {route}: the view's last field byte at offset {last_off} does not alias the tag (8..{})", 8 + r8(size)));
                 }
             }
+        }
+    }
+    // the type-size dimension: a view type whose size exceeds the tag by 4 GiB (or by
+    // 4 GiB + 8 ...) can only be rejected, like every type that is not the tag's size
+    #[cfg(target_pointer_width = "64")]
+    {
+        let mbi = unsafe { BootInformation::load(a.as_ptr().cast()) }.expect("case regions load");
+        let g: &DynSizedStructure<TagHeader> = mbi.tags().next().unwrap();
+        let pad = r8(size) - 8;
+        let views = [
+            mb2_model::panics::catch(|| std::mem::size_of_val(g.cast::<Huge<{ 1 << 32 }>>())),
+            mb2_model::panics::catch(|| std::mem::size_of_val(g.cast::<Huge<{ (1 << 32) + 8 }>>())),
+            mb2_model::panics::catch(|| std::mem::size_of_val(g.cast::<Huge<{ (1 << 32) + 16 }>>())),
+            mb2_model::panics::catch(|| std::mem::size_of_val(g.cast::<Huge<{ (2 << 32) + 8 }>>())),
+        ];
+        let _ = pad;
+        if let Some(sov) = views.iter().flatten().next() {
+            return Err(format!("a tag of size {size} is viewed as a sized type of {sov} bytes (more than 4 GiB larger than the tag) instead of being rejected"));
         }
     }
     // second lookup on the same loaded structure: exactly what the first lookup gives
